@@ -21,6 +21,7 @@ import (
 	"encoding/json"
 	"fmt"
 	"net/http"
+	"os"
 	"reflect"
 	"strconv"
 	"strings"
@@ -59,10 +60,11 @@ type c06Peer struct {
 	gateLose    atomic.Bool  // a parked write fails when released: the in-flight revision is lost
 	gateStopped atomic.Bool  // set by the harness once the replication has stopped with the write still parked
 	// mid-window interference: one local write forced into the compute->CAS window of a replicated write
-	midArmed atomic.Bool
-	midDoc   atomic.Int32
-	midFn    atomic.Pointer[func(doc int)]
-	inHook   sync.Map // goroutine id -> true while the harness itself is writing from inside a hook
+	midArmed  atomic.Bool
+	midDelete atomic.Bool
+	midDoc    atomic.Int32
+	midFn     atomic.Pointer[func(doc int)]
+	inHook    sync.Map // goroutine id -> true while the harness itself is writing from inside a hook
 }
 
 type c06Env struct {
@@ -196,6 +198,11 @@ func c06Setup(t *testing.T, run *vlib.Run, c *c06Case) *c06Env {
 				return nil
 			}
 			if int(p.midDoc.Load()) != e.docIndex(op.Key) {
+				return nil
+			}
+			if op.Deleted && p.midDelete.Load() {
+				// a local delete inside the window of a replicated tombstone write makes rosmar answer "deleteBody=true on a
+				// tombstone" instead of a CAS mismatch (an artefact of the test store): stay armed for the next write
 				return nil
 			}
 			if !p.midArmed.CompareAndSwap(true, false) {
@@ -1014,6 +1021,7 @@ func (e *c06Env) execute() bool {
 				e.write(p, doc, st.Kind, " [inside the compute->CAS window of a replicated write]")
 			}
 			p.midDoc.Store(int32(s.Doc))
+			p.midDelete.Store(s.Kind == "delete")
 			p.midFn.Store(&fn)
 			p.midArmed.Store(true)
 			e.tr("step %d: armed: next replicated write of %s on %s gets a local %s in its compute->CAS window", i, e.docIDs[s.Doc], s.Peer, s.Kind)
@@ -1481,6 +1489,12 @@ func TestVerif_C06_ISGRRace(t *testing.T) {
 
 func c06RunISGR(t *testing.T, run *vlib.Run, scripts, workers int) {
 	base.RequireNumTestBuckets(t, 2)
+	if os.Getenv("VERIF_C06_DEBUG") != "" {
+		base.SetUpTestLogging(t, base.LevelDebug, base.KeyCRUD, base.KeyReplicate, base.KeySync, base.KeySyncMsg)
+	} else {
+		// handler errors (a revision refused by the receiving side) are logged at info level under SyncMsg
+		base.SetUpTestLogging(t, base.LevelInfo, base.KeySyncMsg)
+	}
 	prev := db.BypassReleasedSequenceWait.Load()
 	db.BypassReleasedSequenceWait.Store(false)
 	defer db.BypassReleasedSequenceWait.Store(prev)
@@ -1497,7 +1511,8 @@ func c06RunISGR(t *testing.T, run *vlib.Run, scripts, workers int) {
 			t.Run(fmt.Sprintf("%d-%s-%s", c.Index, c.Direction, c.Proto), func(t *testing.T) {
 				t.Parallel()
 				sem <- struct{}{}
-				defer func() { <-sem }()
+				// registered first = runs last: the slot is free only after the case's buckets went back to the pool
+				t.Cleanup(func() { <-sem })
 				c06RunCase(t, run, c)
 			})
 		}
